@@ -18,15 +18,17 @@ Mirrored Go code (protocol order only; data layout, files and the Go memory mode
   * query      pkg/segment/query/segquery.go getAllSegmentsInQuery (1063-1100) and getAllSegmentsInAggs
                (841-880): FIRST writer.FilterUnrotatedSegmentsInQuery (snapshot of the unrotated map under
                RLock: key, RecordCount), THEN segmetadata.FilterSegmentsByTime (snapshot of the rotated list
-               under RLock: key, record count); the two request lists are APPENDED, there is no
-               de-duplication by segment key (`Cfg.dedupSeg = false`).  Facts C11.query.order / C11.aggs.order.
+               under RLock: key, record count); then `removeQSRsAlsoRotated` drops every unrotated request
+               whose segment key is also in the rotated list and the two lists are appended
+               (`Cfg.dedupSeg = true`; before the repair they were appended as they were: `Cfg.realOld`).
+               Facts C11.query.order / C11.aggs.order / C11.query.dedup.
   * read       record queries (RRC; processor/searcher.go getBlocks → query.GetSSRsFromQSR, segquery.go 1164-1195):
                per request the CURRENT state decides — `writer.IsSegKeyUnrotated(key)` → the blocks now in the
                unrotated entry, otherwise the blocks of the rotated metadata; a (segment, block) pair already
                taken is dropped (getFilteredBlocks, `processedBlocks`).
                count queries (`* | stats count`, applyAggOpOnSegments, segquery.go 961-1040): every request
-               contributes the record count captured BY ITS SNAPSHOT (`Count: segReq.TotalRecords`, 1010-1014);
-               nothing is de-duplicated.
+               contributes the record count captured BY ITS SNAPSHOT (`Count: segReq.TotalRecords`); nothing
+               further is de-duplicated (the request list already holds every segment key once).
 
 The two maps are modelled as functions key ↦ number of blocks (0 = no entry); `segs` (ghost) enumerates the
 keys that ever received a block, `total` (ghost) counts the blocks ever flushed to a key.
@@ -61,9 +63,16 @@ structure Cfg where
   qOrder : List QStep
   dedupSeg : Bool
 
-/-- the orders extracted from the source (see header) -/
-def Cfg.real : Cfg :=
-  { rotOrder := [.segmetaFile, .addMeta, .removeUnrot, .reset], qOrder := [.snapU, .snapR], dedupSeg := false }
+/-- the orders extracted from the source (see header), with or without de-duplication of the request list -/
+def Cfg.of (dedupSeg : Bool) : Cfg :=
+  { rotOrder := [.segmetaFile, .addMeta, .removeUnrot, .reset], qOrder := [.snapU, .snapR], dedupSeg := dedupSeg }
+
+/-- the code as it is: `removeQSRsAlsoRotated` drops the unrotated request of a segment that is also in the
+rotated list (segquery.go, getAllSegmentsInQuery / getAllSegmentsInAggs) -/
+abbrev Cfg.real : Cfg := Cfg.of true
+
+/-- the code before that repair: the two request lists were appended as they were -/
+abbrev Cfg.realOld : Cfg := Cfg.of false
 
 /-- one SegStore -/
 structure Store where
@@ -108,7 +117,7 @@ def dedup {α : Type} [DecidableEq α] : List α → List α
   | a :: l => if a ∈ dedup l then dedup l else a :: dedup l
 
 /-- de-duplication of a request list by segment key (last request of a key wins: the rotated one) —
-what `Cfg.dedupSeg = true` would do; the code as it is does not do it -/
+`removeQSRsAlsoRotated` followed by the append, `Cfg.dedupSeg = true` -/
 def dedupKey : List (Seg × Nat) → List (Seg × Nat)
   | [] => []
   | r :: l => if (dedupKey l).any (fun r' => r'.1 = r.1) then dedupKey l else r :: dedupKey l
@@ -210,20 +219,23 @@ end SigModel.Conc
 The read of ONE request of a record query against a concurrent rotation of that request's segment, at the
 granularity of the lock acquisitions of the read path (the machine above treats this read as one step):
 
-  A  query.GetSSRsFromQSR (segquery.go 1164-1195):           `writer.IsSegKeyUnrotated(key)`      (RLock, released)
+  A  query.GetSSRsFromQSR (segquery.go):                      `writer.IsSegKeyUnrotated(key)`   (RLock, released)
   B  metadata.CheckMicroIndicesForUnrotated (unrotatedmeta.go 68-120): look-up of the key under a SECOND RLock;
-     a missing key is logged and the segment is SKIPPED (`continue`)
-  C  segread.initNewMultiColumnReader (multicolreader.go 84-160): `writer.IsSegKeyUnrotated(key)` again
-  D  `writer.GetBlockSearchInfoForKey(key)` under a further RLock; a missing key is an error, on which
-     InitSharedMultiColumnReaders calls `sharedReader.Close()` and returns the reader AND the error, and its
-     caller search.RawSearchSingleQuery (filtersearch.go 41-54) only logs the error and runs
-     `defer sharedMultiReader.Close()` — the FD semaphore is released twice: panic "semaphore: released more
-     than held" on a search goroutine, the process dies.
+     a missing key is logged and the segment is skipped there.
+       repaired reader: GetSSRsFromQSR then asks `IsSegKeyUnrotated` again and, the key being gone, builds the
+       request from the rotated metadata (ExtractSSRFromSearchNode)
+       old reader:      the segment stayed skipped — its events were silently missing from the result
+  C  segread.initNewMultiColumnReader (multicolreader.go):     `writer.IsSegKeyUnrotated(key)` again
+  D  `writer.GetBlockSearchInfoForKey(key)` under a further RLock; a missing key is an error.
+       repaired reader: asks `IsSegKeyUnrotated` again and, the key being gone, uses
+                        segmetadata.GetSearchInfoAndSummary; SharedMultiColReaders.Close is idempotent
+       old reader:      InitSharedMultiColumnReaders closed the readers AND returned them with the error, its
+                        caller search.RawSearchSingleQuery closed them again (deferred): the FD semaphore was
+                        released twice, panic "semaphore: released more than held", the process died
   If A or C answer "not unrotated" the rotated metadata / the segment's files are used (always present after
   `addMeta`, which precedes `removeUnrot`).
 
-Facts C11.read.* tie the call orders.  `atomicLookup = true` is the repaired reader (check and look-up under
-one lock acquisition), used to state what the repair achieves.
+Facts C11.read.* tie the call orders.
 -/
 namespace SigModel.Conc.ReadOne
 
@@ -253,6 +265,12 @@ inductive Outcome where
   | readUnrotated | readRotated | skipped | crashed
 deriving DecidableEq, Repr
 
+/-- which reader: the code as it is (fall back to the rotated path when the key has left the unrotated map
+between a check and its look-up; idempotent Close) or the code before the repair -/
+inductive Reader where
+  | real | old
+deriving DecidableEq, Repr
+
 structure RSt where
   rot : RotPc := .start
   pc : RPc := .checkSsr
@@ -263,37 +281,41 @@ inductive RLabel where
   | rot | read
 deriving DecidableEq, Repr
 
-/-- one lock acquisition of the reader -/
-def readStep (atomicLookup : Bool) (s : RSt) : RSt :=
+/-- one lock acquisition of the reader (the repaired reader's re-check and its rotated look-up happen after
+`removeUnrot`; the rotated map only grows, so they are folded into the failing look-up step) -/
+def readStep (r : Reader) (s : RSt) : RSt :=
   match s.pc with
   | .checkSsr =>
-    if s.rot.inUnrot then (if atomicLookup then { s with pc := .checkReader } else { s with pc := .lookupSsr })
+    if s.rot.inUnrot then { s with pc := .lookupSsr }
     else if s.rot.inRot then { s with pc := .checkReader }
     else { s with pc := .done, outcome := some .skipped }
   | .lookupSsr =>
-    if s.rot.inUnrot then { s with pc := .checkReader } else { s with pc := .done, outcome := some .skipped }
+    if s.rot.inUnrot then { s with pc := .checkReader }
+    else match r with
+      | .real => if s.rot.inRot then { s with pc := .checkReader } else { s with pc := .done, outcome := some .skipped }
+      | .old => { s with pc := .done, outcome := some .skipped }
   | .checkReader =>
-    if s.rot.inUnrot then
-      (if atomicLookup then { s with pc := .done, outcome := some .readUnrotated } else { s with pc := .lookupReader })
+    if s.rot.inUnrot then { s with pc := .lookupReader }
     else { s with pc := .done, outcome := some .readRotated }
   | .lookupReader =>
     if s.rot.inUnrot then { s with pc := .done, outcome := some .readUnrotated }
-    else { s with pc := .done, outcome := some .crashed }
+    else match r with
+      | .real => { s with pc := .done, outcome := some .readRotated }
+      | .old => { s with pc := .done, outcome := some .crashed }
   | .done => s
 
-def rstep (atomicLookup : Bool) (s : RSt) : RLabel → RSt
+def rstep (r : Reader) (s : RSt) : RLabel → RSt
   | .rot => { s with rot := s.rot.next }
-  | .read => readStep atomicLookup s
+  | .read => readStep r s
 
-def rrun (atomicLookup : Bool) (s : RSt) (l : List RLabel) : RSt := l.foldl (rstep atomicLookup) s
+def rrun (r : Reader) (s : RSt) (l : List RLabel) : RSt := l.foldl (rstep r) s
 
-/-- schedule guard: the `removeUnrot` step does not fall between a check and its look-up -/
+/-- schedule guard for the OLD reader: the `removeUnrot` step does not fall between a check and its look-up -/
 def noRemoveInWindow (s : RSt) : List RLabel → Bool
   | [] => true
   | l :: ls =>
     (match l with
      | .rot => !(s.rot == .added && (s.pc == .lookupSsr || s.pc == .lookupReader))
-     | .read => true) && noRemoveInWindow (rstep false s l) ls
+     | .read => true) && noRemoveInWindow (rstep .old s l) ls
 
 end SigModel.Conc.ReadOne
-
